@@ -59,6 +59,36 @@ class CustomIter(object):
         self.n -= 1
         return ("custom", self.n)
 
+class CountingIter(CustomIter):
+    """`len()` = items remaining, so the object is falsy exactly while the chain is suspended on
+    its last item"""
+
+    def __len__(self):
+        return self.n
+
+
+class PendingFuture(object):
+    """future-like leaf whose truth value means "done": falsy while it is being awaited"""
+
+    def __init__(self, n=2):
+        self.n = n
+
+    def __await__(self):
+        return self
+
+    def __iter__(self):
+        return self
+
+    def __next__(self):
+        if self.n <= 0:
+            raise StopIteration("done")
+        self.n -= 1
+        return ("pending", self.n)
+
+    def __bool__(self):
+        return False
+
+
 class Future(object):
     """asyncio-style: __await__ is a generator method yielding self"""
 
@@ -254,6 +284,18 @@ async def leaf_future():
     await Future(2)
 
 
+async def leaf_counting():
+    await CountingIter(2)
+
+
+async def leaf_pending():
+    await PendingFuture(2)
+
+
+def gleaf_counting():
+    yield from CountingIter(2)
+
+
 def gleaf_yield():
     yield ("gleaf", 0)
     yield ("gleaf", 1)
@@ -268,8 +310,8 @@ def gleaf_custom():
 
 
 CO_LEAVES = {"trap": leaf_trap, "trap2": leaf_trap2, "iter": leaf_iter, "custom_iter": leaf_custom,
-             "future": leaf_future}
-GEN_LEAVES = {"yield": gleaf_yield, "iter": gleaf_iter, "custom_iter": gleaf_custom}
+             "future": leaf_future, "counting_iter": leaf_counting, "pending_future": leaf_pending}
+GEN_LEAVES = {"yield": gleaf_yield, "iter": gleaf_iter, "custom_iter": gleaf_custom, "counting_iter": gleaf_counting}
 NONFRAME_LEAVES = ("iter", "custom_iter")
 
 
